@@ -76,6 +76,14 @@ def curated():
         "t2": T(next=[dict(when="succeeded", pub=[["y", "res"]], do=["t3"])]),
         "t3": T(join=1, next=[dict(when="succeeded", do=["t4"])]), "t4": T()},
         fates={"t1": ["s"], "t2": A, "t3": A, "t4": ["s"]}))
+    out.append(D.wf("cross_edge", {
+        "t1": T(next=[dict(when="succeeded", do=["t2", "t4"])]),
+        "t2": T(next=[dict(do=["t3"])]),
+        "t3": T(next=[dict(when="succeeded", do=["t4", "t5"])]),
+        "t4": T(), "t5": T()}, fates={"t1": A, "t2": ["s"], "t3": A, "t4": ["s"], "t5": ["s"]}))
+    out.append(D.wf("join_zero", {
+        "t1": T(next=[dict(when="succeeded", do=["t3"])]), "t2": T(next=[dict(when="succeeded", do=["t3"])]),
+        "t3": T(join=-2, next=[dict(do=["t4"])]), "t4": T()}, fates={"t1": A, "t2": A, "t3": ["s"], "t4": ["s"]}))
     out.append(D.wf("fail_branch_parallel", {
         "t1": T(next=[dict(when="succeeded", do=["t3"]), dict(when="failed", do=["t2", "fail"])]),
         "t2": T(), "t3": T(), "t4": T()}, fates={"t1": A, "t2": ["s"], "t3": ["s"], "t4": A}))
@@ -433,7 +441,7 @@ def random_graph_def(rng, nmax=5):
                     inbound[x] += 1
     for t in names:
         if inbound[t] >= 2 and rng.random() < 0.4:
-            tasks[t]["join"] = rng.choice([-1, -1, 1, 2])
+            tasks[t]["join"] = rng.choice([-1, -1, 1, 2, -2])
     return D.wf("g", tasks, vars=[["x", 0]], fates={t: ["s"] for t in names})
 
 
